@@ -332,6 +332,8 @@ class C09(PropCheck):
             case = {"k": "tree", "node": node}
             if (node.get("exiting") or node.get("stack_exiting")) and node.get("exit_by") == "fallthrough":
                 case["body"] = rng.choice([None, "try_raise", "try_return"])
+            if (node.get("exiting") or node.get("stack_exiting")) and not case.get("body") and rng.random() < 0.4:
+                case["wrapped"] = True
             if not node.get("exiting") and not node.get("stack_exiting") and rng.random() < 0.3:
                 # the same unfolding when the bytecode analysis is unavailable (gc-referents fallback): which managers are active in
                 # each generator frame is then read off the generator object
@@ -396,6 +398,17 @@ class C09(PropCheck):
                             return
                         except KeyError:
                             return
+        elif node["async"] and case.get("wrapped") and (exiting or stack_exiting):
+            # the same frame holds another manager around the one under observation
+            import contextlib as _clw
+
+            outer_cm = _clw.nullcontext()
+
+            async def holder():
+                with outer_cm:
+                    async with root as st:
+                        if node.get("exit_by") == "exception":
+                            raise KeyError("leaving the block by exception")
         elif node["async"]:
             async def holder():
                 async with root as st:
@@ -447,11 +460,12 @@ class C09(PropCheck):
             probs = []
             if s.error is not None:
                 probs.append(f"error {s.error!r}")
-            if len(f0.contexts) != 1:
+            nwrap = 1 if (node["async"] and case.get("wrapped") and (exiting or stack_exiting)) else 0
+            if len(f0.contexts) != 1 + nwrap:
                 probs.append(f"holder frame has {len(f0.contexts)} contexts")
                 self._probs = probs
                 return "?"
-            ctx = f0.contexts[0]
+            ctx = f0.contexts[nwrap]
             got = observe_ctx(ctx, b.ids)
             if stack_exiting:
                 node["ops"] = node["ops"][:-1]          # the blocker has been popped: every earlier registration is still pending
